@@ -66,7 +66,10 @@ func TestPlan(t *testing.T) {
 		}
 		sh := ev.RapidShards(prefix, test, n, c, nil)
 		for i := range sh {
-			sh[i].TimeoutS = 3600
+			sh[i].TimeoutS = 900
+			if ev.Thorough() {
+				sh[i].TimeoutS = 3600
+			}
 		}
 		p.Shards = append(p.Shards, sh...)
 	}
@@ -75,9 +78,14 @@ func TestPlan(t *testing.T) {
 		// the binary leg of the formatter properties: `spok --fmt` on generated files
 		p.Rule = "binary leg: generated spokfiles (random layouts, comments in every position, side-effect-free loading) formatted in place by `spok --fmt` in the sandbox; the file afterwards is parsed in-process and judged by the same projection as the in-process leg (C11: a second --fmt leaves it byte-identical). Non-trivial: the file changed; distinct by source"
 		binShards("^TestFmtBinary$", 8, 40, 16, 600)
+		p.Shards = append(p.Shards, ev.ShardSpec{Name: "fmtboundary-0", Test: "^TestFmtBoundary$", TimeoutS: 900})
 	case "C06":
 		p.Rule = "binary leg: generated spokfiles (random layouts, comments, lines around 64 KiB) are handed to the real CLI as a file; what `spok --fmt` writes back is the rendering of the tree the CLI built, and must equal the rendering of the tree the parser builds from the same text in-process (so reading the file — encoding, line ends, long lines — loses or alters nothing). Non-trivial: the file changed; distinct by source"
 		binShards("^TestFmtBinary$", 8, 40, 16, 600)
+		p.Shards = append(p.Shards, ev.ShardSpec{Name: "fmtboundary-0", Test: "^TestFmtBoundary$", TimeoutS: 900})
+	case "C04":
+		p.Rule = "binary leg: one task with literal and glob dependencies; the digest spok records in .spok/cache.json after a run from a fresh cache must be the same however spok is pointed at the project (from the project, a nested directory, --spokfile relative / absolute from the project, its parent, a sibling directory; project directories with odd names), must change when a dependency is edited, must not change when another file is, and must return when the edit is undone"
+		binShards("^TestDigestBinary$", 8, 30, 16, 300)
 	case "C18":
 		p.Level = "fault_enumeration"
 		p.Rule = "binary leg: a task whose literal dependencies are regular / empty / directory / missing / dangling link / link / unreadable (mode 0) files in every mixture of up to 6, run through the CLI as an unprivileged user under {plain, --force, --json, --quiet}: spok never dies (signal, panic); with an unopenable dependency and no --force it stops with a message, exits non-zero and does not run the task; otherwise it succeeds"
@@ -340,6 +348,12 @@ func replayOther(t *testing.T, v ev.Violation, raw []byte) *rp.Fail {
 			t.Fatal(err)
 		}
 		return execForce(nil, newBox(t), c)
+	case "digestbin":
+		var c DigestCase
+		if err := json.Unmarshal(raw, &c); err != nil {
+			t.Fatal(err)
+		}
+		return execDigest(nil, newBox(t), c)
 	case "fmtbin":
 		var c FmtCase
 		if err := json.Unmarshal(raw, &c); err != nil {
@@ -600,6 +614,51 @@ func TestFmtBinary(t *testing.T) {
 	})
 }
 
+// TestFmtBoundary: lines whose length crosses the 64 KiB mark when they are formatted (a '#' gains a
+// blank, a command its indentation, ':=' its blanks), every length around the mark, as a comment, a
+// string and a command, in a tight and in the formatted spelling.
+func TestFmtBoundary(t *testing.T) {
+	s := ev.Open(t, id())
+	b := newBox(t)
+	seen := map[string]bool{}
+	n := 0
+	for delta := 0; delta <= 14; delta++ {
+		long := strings.Repeat("x", 65536-delta)
+		for _, src := range []string{
+			"X := \"a\"\n#" + long + "\nAFTER := \"tail\"\n",
+			"X := \"a\"\n# " + long + "\nAFTER := \"tail\"\n",
+			"H:=\"" + long + "\"\nAFTER := \"tail\"\n",
+			"H := \"" + long + "\"\nAFTER := \"tail\"\n",
+			"task t() {\necho " + long + "\n}\nAFTER := \"tail\"\n",
+			"task t() {\n    echo " + long + "\n}\n\nAFTER := \"tail\"\n",
+			"task t(\"a\",\"" + long + "\") {\n}\n",
+		} {
+			n++
+			c := FmtCase{Src: src}
+			s.Eval()
+			s.Class("fmt_line_crossing_64KiB")
+			if f := execFmtBinary(id(), s, b, c); f != nil && !seen[f.Sig] {
+				seen[f.Sig] = true
+				s.Violation("fmtbin", f.Sig, f.Msg, f.Size, c)
+			}
+		}
+	}
+	if s.Failed() {
+		t.Fatal("violations recorded")
+	}
+}
+
+func TestDigestBinary(t *testing.T) {
+	s := ev.Open(t, "C04")
+	b := newBox(t)
+	rp.Check(t, s, "digestbin", genDigest, func(c DigestCase) *rp.Fail {
+		if s.WantSample() {
+			s.Sample(map[string]any{"deps": c.Deps, "styles": c.Styles, "edit": c.Edit})
+		}
+		return execDigest(s, b, c)
+	})
+}
+
 func TestFail(t *testing.T) {
 	s := ev.Open(t, "C09")
 	b := newBox(t)
@@ -711,6 +770,17 @@ func TestKillPrefixes(t *testing.T) {
 						}
 					}
 				}
+			}
+		}
+		// the set a glob names becomes empty, a (normal / killed / failing) run happens on the empty
+		// set, and the very same file comes back
+		if pi == 0 {
+			gprog := []KTask{{Name: "A", Globs: []string{"*.c"}}, {Name: "B", Files: []string{"f2.txt"}, Deps: []string{"A"}}}
+			ginit := map[string]string{"f1.txt": "0", "f2.txt": "0", "g1.c": "0"}
+			for _, mid := range []KStep{{Op: "run", Tasks: []string{"B"}, CutAbs: -1}, {Op: "run", Tasks: []string{"A", "B"}, Kill: "A", CutAbs: -1}, {Op: "run", Tasks: []string{"B"}, Fail: []string{"A"}, CutAbs: -1}, {Op: "run", Tasks: []string{"B"}, Force: true, CutAbs: -1}, {Op: "run", Tasks: []string{"B"}, Kill: "B", CutAbs: -1}} {
+				steps := []KStep{run("B"), {Op: "delete", File: "g1.c", CutAbs: -1}, mid, w("g1.c", "0"), run("B"), run("A", "B")}
+				s.Class("enumerated_emptied_glob_set")
+				one(KillCase{Tasks: gprog, Init: ginit, Steps: steps})
 			}
 		}
 		// every byte prefix of the cache file after the second run (length probed once: <= 200 bytes)
